@@ -487,7 +487,7 @@ func (e *effects) update(f *ssa.Function) bool {
 			cc := x.Common()
 			if b, ok := cc.Value.(*ssa.Builtin); ok {
 				switch b.Name() {
-				case "delete":
+				case "delete", "clear":
 					if e.markWrite(f, cc.Args[0], "delete") {
 						ch = true
 					}
